@@ -64,7 +64,7 @@ theorem remove_top_ok [TransCmp cmp] (t : T α) (k : α) (h : WF cmp t) :
 
 theorem new_ok {srt : List α → List α} (hs : SortCompact cmp srt) {β : Int} {keys : List α} {t : T α}
     (h : T.new srt β keys = some t) :
-    WF cmp t ∧ t.root.toList = (match keys with | [] => [] | _ => srt keys) ∧ t.β = β.toNat := by
+    WF cmp t ∧ t.root.toList = SortedSet.newKeys srt keys ∧ t.β = β.toNat := by
   unfold T.new at h
   by_cases hb : Stree.betaOutOfRange β = true
   · simp [hb] at h
@@ -81,7 +81,7 @@ theorem new_ok {srt : List α → List α} (hs : SortCompact cmp srt) {β : Int}
       · show (srt (k :: ks)).length = (extract (srt (k :: ks))).size
         rw [size_eq_length, extract_toList]
       · show (extract (srt (k :: ks))).toList = _
-        rw [extract_toList]
+        rw [extract_toList]; rfl
 
 /-! ## queries -/
 
